@@ -104,7 +104,79 @@ theorem runCached_eq_g (cb : Combiner) (sim : Nat → Nat → F) (qs : List (Lis
     simp only [runCached, runPlain, groupSimilarityM, groupSimilarity]
     rw [h1, ih _ h2]
 
+/-- exchanging the roles of rows and columns, for EVERY numeric instance whose `+` and `f32::max`
+are commutative - instances with NaN values included (no order law is used) -/
+theorem combineWith_swap_g (hadd : ∀ a b : F, Num.add a b = Num.add b a)
+    (hmax : ∀ a b : F, fmax a b = fmax b a) (cb : Combiner) (r c : Nat) (rm cm : List F) :
+    combineWith cb c r cm rm = combineWith cb r c rm cm := by
+  cases cb
+  · simp only [combineWith, funSimAvg]
+    cases h1 : (Num.div? (sum rm) (Num.ofNat r) : Option F) <;>
+      cases h2 : (Num.div? (sum cm) (Num.ofNat c) : Option F) <;>
+      simp only [Option.bind_some, Option.bind_none]
+    rw [hadd]
+  · simp only [combineWith, funSimMax]
+    cases h1 : (Num.div? (sum rm) (Num.ofNat r) : Option F) <;>
+      cases h2 : (Num.div? (sum cm) (Num.ofNat c) : Option F) <;>
+      simp only [Option.bind_some, Option.bind_none, Option.map_some, Option.map_none]
+    rw [hmax]
+  · simp only [combineWith, bma]
+    rw [hadd (sum cm), hadd (Num.ofNat c)]
+
+/-- argument order, for every such instance: the matrix of `(B, A)` is the transpose of the matrix
+of `(A, B)`, so each row of the one IS a column of the other, element order included - the
+comparison-based maxima (which depend on the position of a NaN) are computed on identical lists -/
+theorem groupSimilarity_symm_g (hadd : ∀ a b : F, Num.add a b = Num.add b a)
+    (hmax : ∀ a b : F, fmax a b = fmax b a) (cb : Combiner) (sim : Nat → Nat → F)
+    (hs : ∀ x y, sim x y = sim y x) (A B : List Nat) :
+    groupSimilarity cb sim A B = groupSimilarity cb sim B A := by
+  by_cases hA : A = []
+  · rw [groupSimilarity_empty_g cb sim A B (Or.inl hA), groupSimilarity_empty_g cb sim B A (Or.inr hA)]
+  by_cases hB : B = []
+  · rw [groupSimilarity_empty_g cb sim A B (Or.inr hB), groupSimilarity_empty_g cb sim B A (Or.inl hB)]
+  by_cases h16 : A.length ≤ 65535 ∧ B.length ≤ 65535
+  · rw [groupSimilarity_eq_g cb sim A B hA hB h16.1 h16.2,
+      groupSimilarity_eq_g cb sim B A hB hA h16.2 h16.1,
+      combineWith_swap_g hadd hmax cb A.length B.length]
+    have h1 : (A.map fun a => gmax (B.map (sim a))) = A.map fun a => gmax (B.map fun b => sim b a) := by
+      apply List.map_congr_left; intro a _; congr 1; apply List.map_congr_left; intro b _; exact hs a b
+    have h2 : (B.map fun b => gmax (A.map fun a => sim a b)) = B.map fun b => gmax (A.map (sim b)) := by
+      apply List.map_congr_left; intro b _; congr 1; apply List.map_congr_left; intro a _; exact hs a b
+    rw [h1, h2]
+  · rw [groupSimilarity_panic_g cb sim A B hA hB h16,
+      groupSimilarity_panic_g cb sim B A hB hA (fun h => h16 ⟨h.2, h.1⟩)]
+
 end generic
+
+/-! ### an arithmetic with a NaN (non-vacuity of the instance-independent statements of C05) -/
+
+/-- a small arithmetic WITH a NaN (`none`): absorbing for the operations, every comparison with it
+is false -/
+def nanNum : Num (Option ℚ) where
+  ofNat := fun n => some (n : ℚ)
+  add := fun a b => a.bind fun x => b.map fun y => x + y
+  sub := fun a b => a.bind fun x => b.map fun y => x - y
+  mul := fun a b => a.bind fun x => b.map fun y => x * y
+  div? := fun a b => if b = some 0 then none else some (a.bind fun x => b.map fun y => x / y)
+  log := fun _ => none
+  exp := fun _ => none
+  neg := fun a => a.map fun x => -x
+  isZero := fun a => decide (a = some 0)
+  lt := fun a b => match a, b with
+    | some x, some y => decide (x < y)
+    | _, _ => false
+  isNaN := fun a => a.isNone
+
+theorem nanNum_add (a b : Option ℚ) :
+    @Num.add _ nanNum a b = a.bind fun x => b.map fun y => x + y := rfl
+theorem nanNum_lt_some (x y : ℚ) : @Num.lt _ nanNum (some x) (some y) = decide (x < y) := rfl
+theorem nanNum_lt_none_left (b : Option ℚ) : @Num.lt _ nanNum none b = false := rfl
+theorem nanNum_lt_none_right (a : Option ℚ) : @Num.lt _ nanNum a none = false := by cases a <;> rfl
+theorem nanNum_isNaN (a : Option ℚ) : @Num.isNaN _ nanNum a = a.isNone := rfl
+theorem nanNum_ofNat (n : ℕ) : @Num.ofNat _ nanNum n = some (n : ℚ) := rfl
+theorem nanNum_div? (a b : Option ℚ) : @Num.div? _ nanNum a b =
+    if b = some 0 then none else some (a.bind fun x => b.map fun y => x / y) := rfl
+
 
 variable {R : Rounding}
 
@@ -204,7 +276,7 @@ theorem sumR_le (l : List (RVal R)) (hl : ∀ x ∈ l, x.v ≤ 1) (hk : l.length
 /-! ### the combiners -/
 
 theorem fmaxR_comm (a b : RVal R) : fmax a b = fmax b a := by
-  simp only [fmax, NumR.lt_eq, decide_eq_true_eq]
+  simp only [fmax, NumR.isNaN_eq, Bool.false_eq_true, if_false, NumR.lt_eq, decide_eq_true_eq]
   by_cases h1 : a.v < b.v
   · have h2 : ¬ b.v < a.v := not_lt.2 h1.le
     simp [h1, h2]
@@ -214,7 +286,7 @@ theorem fmaxR_comm (a b : RVal R) : fmax a b = fmax b a := by
       exact RVal.ext' (le_antisymm (not_lt.1 h2) (not_lt.1 h1))
 
 theorem fmaxR_cases (a b : RVal R) : fmax a b = a ∨ fmax a b = b := by
-  simp only [fmax]
+  simp only [fmax, NumR.isNaN_eq, Bool.false_eq_true, if_false]
   split
   · right; rfl
   · left; rfl
